@@ -107,6 +107,12 @@ func (d *decoder) readChunked(o *Object, s *dataspace, lay *layoutInfo, total ui
 		}
 	}
 
+	if chunkBytes > maxDataBytes {
+		o.DataErr = "chunk larger than the decoder's cap"
+		d.res.addLimitation("chunks larger than 256 MiB are not materialised")
+		return
+	}
+
 	// Collect the chunk records from whichever index the layout names.
 	var recs []chunkRec
 	if lay.version <= 3 {
@@ -168,9 +174,7 @@ func (d *decoder) readChunked(o *Object, s *dataspace, lay *layoutInfo, total ui
 		}
 		if uint64(len(data)) != chunkBytes {
 			d.finding("chunk-size-mismatch", r.addr, "chunk decodes to %d bytes, chunk dimensions x element size is %d", len(data), chunkBytes)
-			if uint64(len(data)) < chunkBytes {
-				data = append(data, make([]byte, chunkBytes-uint64(len(data)))...)
-			}
+			// scatterChunk copies only what is there; the rest stays zero
 		}
 		if outside {
 			// Chunks wholly outside the current extent are legal leftovers of a
@@ -488,7 +492,7 @@ func (d *decoder) unfilter(raw []byte, filters []Filter, mask uint32, at uint64,
 				d.finding("deflate-error", at, "chunk is not a zlib stream: %v", err)
 				return nil, "deflate stream corrupt"
 			}
-			limit := int64(chunkBytes)*4 + 1<<16
+			limit := int64(chunkBytes) + 1<<16
 			out, err := io.ReadAll(io.LimitReader(zr, limit))
 			if err != nil {
 				d.finding("deflate-error", at, "inflating chunk: %v", err)
@@ -543,7 +547,7 @@ func (d *decoder) unfilter(raw []byte, filters []Filter, mask uint32, at uint64,
 // lzfDecompress decodes Marc Lehmann's LZF format as used by the h5py LZF filter.
 func lzfDecompress(in []byte, sizeHint int) ([]byte, bool) {
 	out := make([]byte, 0, sizeHint)
-	limit := sizeHint*4 + 1<<16
+	limit := sizeHint + 1<<16
 	for i := 0; i < len(in); {
 		ctrl := int(in[i])
 		i++
